@@ -291,6 +291,23 @@ fn parse_identstring(text: &str) -> IResult<&str, String> {
     Ok((rest, name.into_iter().collect()))
 }
 
+/// Like `nmchar`, but keeps the case of the character: class names and ids
+/// are case-sensitive, unlike property names, keywords and element names.
+fn nmchar_cs(text: &str) -> IResult<&str, char> {
+    let mut iter = text.chars();
+    match iter.next() {
+        Some(c @ ('_' | 'a'..='z' | 'A'..='Z' | '0'..='9' | '-')) => Ok((iter.as_str(), c)),
+        _ => ident_escape(text),
+    }
+}
+
+/// Parse an identifier-like name (as used after `.` or `#` in a selector)
+/// without folding its case.
+fn parse_name_cs(text: &str) -> IResult<&str, String> {
+    let (rest, name) = many1(nmchar_cs)(text)?;
+    Ok((rest, name.into_iter().collect()))
+}
+
 fn parse_property_name(text: &str) -> IResult<&str, PropertyName> {
     parse_ident(text).map(|(r, s)| (r, PropertyName(s)))
 }
@@ -799,7 +816,9 @@ pub(crate) fn parse_rules(text: &str) -> IResult<&str, Vec<Declaration>> {
 
 fn parse_class(text: &str) -> IResult<&str, SelectorComponent> {
     let (rest, _) = tag(".")(text)?;
-    let (rest, classname) = parse_ident(rest)?;
+    // Check it's a valid identifier, but take the name with its case intact.
+    let _ = parse_ident(rest)?;
+    let (rest, classname) = parse_name_cs(rest)?;
     Ok((rest, SelectorComponent::Class(classname)))
 }
 
@@ -894,7 +913,7 @@ fn parse_pseudo_class(text: &str) -> IResult<&str, SelectorComponent> {
 
 fn parse_hash(text: &str) -> IResult<&str, SelectorComponent> {
     let (rest, _) = tag("#")(text)?;
-    let (rest, word) = parse_identstring(rest)?;
+    let (rest, word) = parse_name_cs(rest)?;
     Ok((rest, SelectorComponent::Hash(word)))
 }
 
